@@ -4,6 +4,7 @@ import (
 	"go/token"
 	"go/types"
 	"sort"
+	"strings"
 
 	"golang.org/x/tools/go/ssa"
 )
@@ -106,6 +107,26 @@ func (a *errAnalysis) addAlias(v ssa.Value) {
 			case *ssa.FreeVar:
 				// assignment to a captured variable from inside a closure: the enclosing function sees it
 				a.escapes = true
+			case *ssa.IndexAddr:
+				// variadic packing: the value is stored into the argument array of a call (fmt.Errorf("%w", err))
+				if arr, ok := addr.X.(*ssa.Alloc); ok {
+					found := false
+					for _, r2 := range *arr.Referrers() {
+						if sl, ok := r2.(*ssa.Slice); ok {
+							for _, r3 := range *sl.Referrers() {
+								if call, ok := r3.(*ssa.Call); ok {
+									a.noteCallUse(call, sl)
+									found = true
+								}
+							}
+						}
+					}
+					if !found {
+						a.escapes = true
+					}
+				} else {
+					a.escapes = true
+				}
 			default:
 				a.escapes = true
 			}
@@ -341,27 +362,61 @@ func (c *Ctx) ClassifyErrCall(call *ssa.Call) *ErrSite {
 }
 
 // exploreErrorEdge walks forward from the non-nil successor. Branches taken when the error matches a
-// sentinel (errors.Is / ==) are pruned and recorded; the walk stops at returns and panics.
+// sentinel (errors.Is / ==) are pruned and recorded; the walk stops at returns and panics. The walk is
+// path-sensitive in two respects: phi operands of a return are resolved along the edge actually taken,
+// and nil tests on OTHER error values met on the way are remembered ("first error wins" idiom:
+// `if e2 != nil && err == nil { err = wrap(e2) }; return err` returns a non-nil error on both arms).
 func (a *errAnalysis) exploreErrorEdge(ifi *ssa.If, start *ssa.BasicBlock, errIdx int) (string, string, []*ssa.If) {
-	seen := map[*ssa.BasicBlock]bool{}
+	type state struct {
+		b, pred *ssa.BasicBlock
+		facts   string
+	}
+	factKey := func(m map[ssa.Value]bool) string {
+		var ks []string
+		for k := range m {
+			ks = append(ks, k.Name())
+		}
+		sort.Strings(ks)
+		return strings.Join(ks, ",")
+	}
+	seen := map[state]bool{}
 	var eofIfs []*ssa.If
 	eofTolerated := false
-	sentinelHandled := false
 	kind := ErrPropagated
 	detail := ""
-	var walk func(b *ssa.BasicBlock)
 	bad := func(k, d string) {
 		if kind == ErrPropagated || (kind == ErrConverted && k == ErrSwallowed) {
 			kind, detail = k, d
 		}
 	}
-	walk = func(b *ssa.BasicBlock) {
-		if seen[b] {
+	// resolve v to the value it has when block b was entered from pred (phis of b only)
+	resolve := func(v ssa.Value, b, pred *ssa.BasicBlock) ssa.Value {
+		for i := 0; i < 4; i++ {
+			phi, ok := v.(*ssa.Phi)
+			if !ok || phi.Block() != b || pred == nil {
+				return v
+			}
+			idx := -1
+			for k, p := range b.Preds {
+				if p == pred {
+					idx = k
+				}
+			}
+			if idx < 0 {
+				return v
+			}
+			v = phi.Edges[idx]
+		}
+		return v
+	}
+	var walk func(b, pred *ssa.BasicBlock, nonNil map[ssa.Value]bool, depth int)
+	walk = func(b, pred *ssa.BasicBlock, nonNil map[ssa.Value]bool, depth int) {
+		st := state{b, pred, factKey(nonNil)}
+		if seen[st] || depth > 64 {
 			return
 		}
-		seen[b] = true
+		seen[st] = true
 		if b == ifi.Block() {
-			// looped back to the test itself: the error path continues the loop
 			bad(ErrSwallowed, "error edge loops back (continue) to "+a.c.InstrPos(ifi))
 			return
 		}
@@ -372,19 +427,34 @@ func (a *errAnalysis) exploreErrorEdge(ifi *ssa.If, start *ssa.BasicBlock, errId
 				bad(ErrConverted, "function has no error result; error edge returns a value at "+a.c.InstrPos(t))
 				return
 			}
-			op := retOperand(t, errIdx)
-			if a.derived(op) {
+			op := resolve(retOperand(t, errIdx), b, pred)
+			if a.derived(op) || nonNil[op] {
 				return
 			}
 			if !mayBeNil(op, map[ssa.Value]bool{}) {
 				return // fresh non-nil error
 			}
+			if phi, ok := op.(*ssa.Phi); ok {
+				// a phi of another block: fine if every incoming value is derived / known non-nil / fresh
+				all := true
+				for _, e := range phi.Edges {
+					if !(a.derived(e) || nonNil[e] || !mayBeNil(e, map[ssa.Value]bool{})) {
+						all = false
+					}
+				}
+				if all {
+					return
+				}
+			}
 			if ld, ok := isLoad(op); ok {
-				// spilled named result: fine if a derived value or fresh error was stored to it on this path — approximate:
 				if al, ok := ld.X.(*ssa.Alloc); ok {
 					for _, r := range *al.Referrers() {
-						if st, ok := r.(*ssa.Store); ok && (a.derived(st.Val) || !mayBeNil(st.Val, map[ssa.Value]bool{})) && seen[st.Block()] {
-							return
+						if stt, ok := r.(*ssa.Store); ok && (a.derived(stt.Val) || !mayBeNil(stt.Val, map[ssa.Value]bool{})) {
+							for s2 := range seen {
+								if s2.b == stt.Block() {
+									return
+								}
+							}
 						}
 					}
 				}
@@ -405,29 +475,57 @@ func (a *errAnalysis) exploreErrorEdge(ifi *ssa.If, start *ssa.BasicBlock, errId
 				if isEOF {
 					eofTolerated = true
 					eofIfs = append(eofIfs, t)
-				} else {
-					sentinelHandled = true
 				}
 				_ = match
-				walk(other)
+				walk(other, b, nonNil, depth+1)
 				return
 			}
 			if ok, pol := a.nilTest(t.Cond); ok {
-				// second nil test on the same error along the error edge: only the non-nil side is feasible
 				if pol {
-					walk(b.Succs[0])
+					walk(b.Succs[0], b, nonNil, depth+1)
 				} else {
-					walk(b.Succs[1])
+					walk(b.Succs[1], b, nonNil, depth+1)
 				}
 				return
 			}
+			// nil test on some other error value: remember it on the non-nil arm
+			if bo, ok := t.Cond.(*ssa.BinOp); ok && (bo.Op == token.EQL || bo.Op == token.NEQ) {
+				var other ssa.Value
+				if isNilConst(bo.Y) && isErrorType(bo.X.Type()) {
+					other = bo.X
+				} else if isNilConst(bo.X) && isErrorType(bo.Y.Type()) {
+					other = bo.Y
+				}
+				if other != nil {
+					other = resolve(other, b, pred)
+					if isNilConst(other) {
+						// comparing the nil constant with nil: only the nil arm is feasible
+						if bo.Op == token.EQL {
+							walk(b.Succs[0], b, nonNil, depth+1)
+						} else {
+							walk(b.Succs[1], b, nonNil, depth+1)
+						}
+						return
+					}
+					nn := map[ssa.Value]bool{other: true}
+					for k := range nonNil {
+						nn[k] = true
+					}
+					nonNilSucc, nilSucc := b.Succs[0], b.Succs[1]
+					if bo.Op == token.EQL {
+						nonNilSucc, nilSucc = nilSucc, nonNilSucc
+					}
+					walk(nonNilSucc, b, nn, depth+1)
+					walk(nilSucc, b, nonNil, depth+1)
+					return
+				}
+			}
 		}
 		for _, s := range b.Succs {
-			walk(s)
+			walk(s, b, nonNil, depth+1)
 		}
 	}
-	walk(start)
-	_ = sentinelHandled
+	walk(start, ifi.Block(), map[ssa.Value]bool{}, 0)
 	if kind == ErrPropagated && eofTolerated {
 		return ErrEOFTol, "io.EOF tolerated", eofIfs
 	}
